@@ -694,6 +694,9 @@ PINNED = [
     (FMT, "Formatter", "format_constant_name"), (FMT, "Formatter", "format_enum_field_name"),
     (FMT, "Formatter", "format_message_field_name"), (FMT, "Formatter", "format_enum_type"),
     (FMT, "Formatter", "format_message_type"), (FMT, "Formatter", "format_alias_type"),
+    (FMT, "Formatter", "format_name_related_to_definition"),
+    # the name a member (e.g. an imported proto) is known under in its scope: Names.name_by_member
+    (ASTPY, "Scope", "get_name_by_member"), (ASTPY, "Scope", "push_member"),
 ]
 
 
@@ -716,7 +719,7 @@ def gen_names() -> Tuple[str, Dict[str, str]]:
     tpl, sk = template_defs()
     out += tpl
     skel.update(sk)
-    trees = {UTILS: utils, FMT: fmt}
+    trees = {UTILS: utils, FMT: fmt, ASTPY: _parse(ASTPY)}
     for rel, cls, name in PINNED:
         fn = find_func(trees[rel], name, cls)
         skel[f"{os.path.basename(rel)}:{(cls + '.') if cls else ''}{name}"] = skeleton_digest(fn)
